@@ -619,4 +619,4 @@ Proof.
 Qed.
 
 Example stale_id_is_dead : stale stale_final 2 = true /\ sv_sessions stale_final !! (2%N, 0%N) = None.
-Proof. split; vm_compute; reflexivity. Qed.
+Proof. split; [vm_compute; reflexivity|vm_compute; reflexivity]. Qed.
